@@ -460,8 +460,13 @@ func limiterPathCase(t *testing.T, idx int64, r *rand.Rand) {
 			var hs []held
 			peak, sawDrop := 0, false
 			reg.Drain()
+			quiet := false // after a window closed with several requests outstanding that then end ignored: one request at a time
 			for i := 0; i < 200+r.IntN(300) && sig == ""; i++ {
-				if len(hs) < 1+r.IntN(8) {
+				want := 1 + r.IntN(8)
+				if quiet {
+					want = 1
+				}
+				if len(hs) < want {
 					li, ok := dl.Acquire(context.Background())
 					if !ok {
 						sig, detail = "harness-acquire-refused", rt.J{}
@@ -475,6 +480,15 @@ func limiterPathCase(t *testing.T, idx int64, r *rand.Rand) {
 				h := hs[k]
 				hs = append(hs[:k], hs[k+1:]...)
 				drop := r.IntN(6) == 0
+				if !drop && r.IntN(5) == 0 {
+					// an ignored completion leaves no trace: neither its in-flight figure nor anything else reaches a window
+					h.l.OnIgnore()
+					rt.Count("limiter_path_ignored_completions", 1)
+					if e := reg.Drain(); len(e) != 0 {
+						sig, detail = "ignored-completion-emitted-samples", rt.J{"events": e}
+					}
+					continue
+				}
 				if h.at > peak {
 					peak = h.at
 				}
@@ -505,6 +519,20 @@ func limiterPathCase(t *testing.T, idx int64, r *rand.Rand) {
 					sig, detail = "drop-counter-disagrees-with-the-window", rt.J{"increments": drops, "window_had_drop": sawDrop}
 				}
 				peak, sawDrop = 0, false
+				quiet = false
+				if len(hs) > 1 && r.IntN(3) == 0 {
+					// everything still outstanding at this window's end is abandoned (ignored): the next window is made of single
+					// requests only and reports an in-flight figure of 1
+					for _, h := range hs {
+						h.l.OnIgnore()
+					}
+					hs = nil
+					if e := reg.Drain(); len(e) != 0 {
+						sig, detail = "ignored-completion-emitted-samples", rt.J{"events": e}
+					}
+					quiet = true
+					rt.Count("limiter_path_windows_after_abandoned_requests", 1)
+				}
 			}
 			for _, h := range hs {
 				h.l.OnIgnore()
@@ -1441,6 +1469,59 @@ func lifecycleConcurrent(idx int64, r *rand.Rand) {
 	rt.Distinct(fmt.Sprintf("lifeconc|%s|%v", pkg, scripts))
 }
 
+// windowedDelegateDrops: an instrumented algorithm behind the windowed limit.  Every window the wrapper hands on is one
+// processed sample of the delegate: its drop counter moves iff that window contained a drop - wherever in the window.
+func windowedDelegateDrops(idx int64, r *rand.Rand) {
+	reg := inject.NewRecRegistry()
+	inner := limit.NewAIMDLimit("in", 20, 0.9, 1, reg)
+	size := 10 + r.IntN(5)
+	w, err := limit.NewWindowedLimit("w", 1e8, 1e8, int32(size), 0, inner, nil)
+	if err != nil {
+		panic(err)
+	}
+	idDrop := core.PrefixMetricWithName(core.MetricDropped, "in")
+	idIF := core.PrefixMetricWithName(core.MetricInFlight, "in")
+	now := int64(1e12)
+	reg.Drain()
+	windowHadDrop, windows := false, 0
+	var tail []string
+	for i := 0; i < 400+r.IntN(400); i++ {
+		drop := r.IntN(12) == 0
+		inflight := 1 + r.IntN(size)
+		if r.IntN(4) == 0 {
+			inflight = size + 1 + r.IntN(10) // enough to close a window once its period is over
+		}
+		now += 1 + r.Int64N(4e7)
+		rtt := 1000 + r.Int64N(1e6)
+		w.OnSample(now, rtt, inflight, drop)
+		windowHadDrop = windowHadDrop || drop
+		tail = append(tail, fmt.Sprintf("start=%d rtt=%d inflight=%d drop=%v", now, rtt, inflight, drop))
+		drops, delivered := 0, 0
+		for _, ev := range reg.Drain() {
+			switch ev.ID {
+			case idDrop:
+				drops++
+			case idIF:
+				delivered++
+			}
+		}
+		if delivered == 0 {
+			continue
+		}
+		windows++
+		rt.Count("windows_handed_to_an_instrumented_delegate", 1)
+		if delivered != 1 || (drops == 1) != windowHadDrop || drops > 1 {
+			rt.Violation("C20/windowed/delegate-drop-counter-disagrees-with-the-window", idx, rt.J{"window_size": size, "window_had_drop": windowHadDrop, "drop_counter_increments": drops,
+				"windows_delivered_by_this_sample": delivered, "last_samples": tail[max(0, len(tail)-14):]})
+			return
+		}
+		windowHadDrop = false
+	}
+	if windows > 1 {
+		rt.Distinct(fmt.Sprintf("wdd|%d|%d", size, windows))
+	}
+}
+
 // externalSetCase: a limiter over a limit that is moved from outside (SettableLimit.SetLimit).  Once a sample window has
 // closed after a set, the limit gauge the algorithm publishes and the limit gauge the strategy publishes (what is
 // enforced) report the same number - the new one.
@@ -1492,6 +1573,8 @@ func TestCheck(t *testing.T) {
 		switch m := idx % 24; {
 		case idx%48 == 29:
 			externalSetCase(idx, r)
+		case idx%48 == 41:
+			windowedDelegateDrops(idx, r)
 		case idx%48 == 19:
 			gaugePollCase(idx, r)
 		case idx%48 == 17:
